@@ -83,8 +83,15 @@ func (s *sim) failedAttempt() (string, string) {
 	return "", ""
 }
 
+var simCount int
+
 func newSim(cfg vkit.RootConfig, wrapper bool) *sim {
-	return &sim{w: vkit.NewWorld(vkit.WorldConfig{StorageWrapper: wrapper, NoRoots: true}), cfg: cfg, mintOffset: map[string]time.Duration{}}
+	// every third history keeps the server's records on the file back end
+	backend := vkit.Inmem
+	if simCount++; simCount%3 == 0 {
+		backend = vkit.File
+	}
+	return &sim{w: vkit.NewWorld(vkit.WorldConfig{Backend: backend, StorageWrapper: wrapper, NoRoots: true}), cfg: cfg, mintOffset: map[string]time.Duration{}}
 }
 
 func (s *sim) vnow() time.Time { return time.Now().Add(s.offset) }
